@@ -29,6 +29,7 @@ pub struct Sig {
     pub self_kind: SelfKind,
     pub params: Vec<(String, Ty)>, // excluding self and the arena
     pub ret: Ty,                   // Rust return type
+    pub pure_fn: bool,             // emitted as a plain function (no monad): calls are terms
 }
 
 impl Sig {
